@@ -87,9 +87,10 @@ impl<CS: CLCiphersuite> BlindSignature<CL03<CS>> {
         }
 
         let mut extended_commitment: Commitment<CL03<CS>> = Commitment::CL03(C.clone());
-        if revealed_messages.is_some() && revealed_message_indexes.is_some() {
+        // without a list of positions the revealed attributes are those of positions 0..len (the convention of extend_commitment_with_pk)
+        if let Some(revealed_messages) = revealed_messages {
             extended_commitment.extend_commitment_with_pk(
-                revealed_messages.unwrap(),
+                revealed_messages,
                 pk,
                 a_bases,
                 revealed_message_indexes,
@@ -141,9 +142,10 @@ impl<CS: CLCiphersuite> BlindSignature<CL03<CS>> {
         revealed_message_indexes: Option<&[usize]>,
     ) -> Self {
         let mut extended_commitment: Commitment<CL03<CS>> = Commitment::CL03(C.clone());
-        if revealed_messages.is_some() && revealed_message_indexes.is_some() {
+        // without a list of positions the revealed attributes are those of positions 0..len (the convention of extend_commitment_with_pk)
+        if let Some(revealed_messages) = revealed_messages {
             extended_commitment.extend_commitment_with_pk(
-                revealed_messages.unwrap(),
+                revealed_messages,
                 pk,
                 a_bases,
                 revealed_message_indexes,
